@@ -238,7 +238,70 @@ func (r *runner) genPv() string {
 	return s
 }
 
+// systematicEdits: truncation of a well-formed input at EVERY offset, deletion of each single
+// byte, and duplication / deletion of each delimiter (the shapes a typo produces; in particular
+// inputs that END inside an open quote, key, regex or macro).
+func systematicEdits(seed string, delims string) []string {
+	seen := map[string]bool{}
+	var out []string
+	add := func(x string) {
+		if !seen[x] {
+			seen[x] = true
+			out = append(out, x)
+		}
+	}
+	for k := 0; k <= len(seed); k++ {
+		add(seed[:k])
+	}
+	for k := 0; k < len(seed); k++ {
+		add(seed[:k] + seed[k+1:])
+		if strings.IndexByte(delims, seed[k]) >= 0 {
+			add(seed[:k] + seed[k:k+1] + seed[k:])
+			add(seed[:k+1] + seed[len(seed)-1:]) // cut the middle, keep the last byte
+		}
+	}
+	for i := 0; i < len(delims); i++ {
+		add(seed + delims[i:i+1])
+	}
+	return out
+}
+
+var wellFormed = map[string][]string{
+	"pv": {"ARGS:'/^id_/'", "ARGS:'a b'", "ARGS|!ARGS:'x'|&TX:/^a\\/b/", "REQUEST_HEADERS:/^x-/|XML:/*", "!ARGS:/a|b/|ARGS_NAMES", "TX:'/a/'|FILES:'q'",
+		"REQUEST_COOKIES:'/^s/'", "&ARGS:'k'", "JSON:a.b|ARGS:k"},
+	"pa": {"id:1,phase:2,deny,status:403,msg:'a,b:c',tag:'x'", "pass,allow,block,id:2,t:none,t:lowercase", "id:3,msg:'it\\'s',logdata:'%{tx.0}',setvar:'tx.a=+1',deny",
+		"chain,id:4,ctl:ruleRemoveTargetById=1;ARGS:a,skipAfter:END"},
+	"pao": {"ARGS \"@rx a\\\"b\" \"id:1,deny\"", "ARGS:'x y'|TX \"!@streq q\" \"id:2,msg:'m'\"", "  REQUEST_URI  \"@rx ^/\\\\\"  \"id:3\"  ", "ARGS \"@eq 1\""},
+	"cqs": {"\"@rx a\\\"b\\\\\" rest", "\"\\\\\\\"x\" \"y\""},
+	"op":  {"!@rx  ^a b$", "@streq x", "!@within a b", "! @rx x", "@ rx"},
+	"macro": {"a%{tx.a}b%{request_headers.host}", "%{TX.a.b}-%{unknown.x}%{rule.id}", "%{matched_var}%%{tx.0}{x}"},
+	"setvar": {"!tx.a", "tx.a=+%{tx.b}", "TX.%{tx.a}_x=-5", "tx.score=%{matched_var}x", "tx.a=+9223372036854775807"},
+}
+
+var editDelims = map[string]string{"pv": "'/|:!&\\", "pa": ",:'\\ ", "pao": "\"\\' ", "cqs": "\"\\", "op": "@! ", "macro": "%{}.", "setvar": "!.=+-%{}"}
+
 func (r *runner) generateModelled() {
+	// systematic truncations / single-byte deletions of well-formed inputs, for every scanner
+	for _, kind := range []string{"pv", "pa", "pao", "cqs", "op", "macro", "setvar"} {
+		for _, seed := range wellFormed[kind] {
+			for _, in := range systematicEdits(seed, editDelims[kind]) {
+				c := caseJSON{Kind: kind, InHex: hexOf(in), Family: "systematic-edits"}
+				if kind == "macro" || kind == "setvar" {
+					c.TX = [][2]string{{"a", "k1"}, {"b", "3"}, {"0", "cap"}}
+				}
+				r.runCase(c)
+			}
+		}
+	}
+	// every selectable variable with a key that ends inside an open quote / regex
+	for _, v := range tabVariables {
+		if !selectable(v) {
+			continue
+		}
+		for _, f := range []string{v + ":'a", v + ":'/^id_/", v + ":'/a", "ARGS|" + v + ":'", v + ":'a'|" + v + ":'b", v + ":/a", v + ":'a'x"} {
+			r.runCase(caseJSON{Kind: "pv", InHex: hexOf(f), Family: "open-quote"})
+		}
+	}
 	quick := !r.cfg.Thorough()
 	n := func(q, t int) int { return r.cfg.Pick(q, t) }
 	// exhaustive small scopes
